@@ -31,8 +31,9 @@ type verifCase struct {
 	Shape  verifShape `json:"shape"`
 	Cols   []string   `json:"cols"`
 	Rows   [][]any    `json:"rows"`
-	Via    string     `json:"via"` // conn | stmt | tx | txstmt
-	Ctx    bool       `json:"ctx"` // call the XxxCtx forms directly
+	Decl   string     `json:"decl"` // declared destination type instead of a reflect.StructOf one
+	Via    string     `json:"via"`  // conn | stmt | tx | txstmt
+	Ctx    bool       `json:"ctx"`  // call the XxxCtx forms directly
 }
 
 // verifTrans logs the terminal calls a transaction session receives.
@@ -301,8 +302,121 @@ func verifDumpElem(e verifElem, v reflect.Value) []any {
 	return out
 }
 
+// Declared destination types. Every one of them is a function-local type called T, so that
+// reflect.Type.String() is "sqlx.T" for all of them although they are different types: same name,
+// tags at different field positions, different numbers of fields, swapped tags.
+func verifDecl(id string) (reflect.Type, bool) {
+	switch id {
+	case "1a":
+		type T struct {
+			A int64  `db:"a"`
+			B string `db:"b"`
+		}
+		return reflect.TypeOf(T{}), true
+	case "1b":
+		type T struct {
+			B string `db:"b"`
+			A int64  `db:"a"`
+		}
+		return reflect.TypeOf(T{}), true
+	case "2a":
+		type T struct {
+			A int64 `db:"a"`
+			B int64 `db:"b"`
+			C int64 `db:"c"`
+		}
+		return reflect.TypeOf(T{}), true
+	case "2b":
+		type T struct {
+			C int64 `db:"c"`
+			A int64 `db:"a"`
+		}
+		return reflect.TypeOf(T{}), true
+	case "3a":
+		type T struct {
+			X string `db:"x"`
+			Y int64  `db:"y"`
+		}
+		return reflect.TypeOf(T{}), true
+	case "3b":
+		type T struct {
+			Y int64  `db:"y"`
+			Z int64  `db:"z"`
+			X string `db:"x"`
+		}
+		return reflect.TypeOf(T{}), true
+	case "4a":
+		type T struct {
+			A int64 `db:"a"`
+			B int64 `db:"b"`
+		}
+		return reflect.TypeOf(T{}), true
+	case "4b":
+		type T struct {
+			A int64 `db:"b"`
+			B int64 `db:"a"`
+		}
+		return reflect.TypeOf(T{}), true
+	case "5a":
+		type T struct {
+			P *int64 `db:"p"`
+			Q string `db:"q"`
+		}
+		return reflect.TypeOf(T{}), true
+	case "5b":
+		type T struct {
+			Q string        `db:"q"`
+			P *int64        `db:"p"`
+			R sql.NullInt64 `db:"r"`
+		}
+		return reflect.TypeOf(T{}), true
+	case "6a":
+		type T struct {
+			A int64 `db:"a"`
+			B int64 `db:"b"`
+			C int64 `db:"c"`
+			D int64 `db:"d"`
+		}
+		return reflect.TypeOf(T{}), true
+	case "6b":
+		type T struct {
+			D int64 `db:"d"`
+			C int64 `db:"c"`
+			B int64 `db:"b"`
+			A int64 `db:"a"`
+		}
+		return reflect.TypeOf(T{}), true
+	}
+	return nil, false
+}
+
+// verifSameShape: same field types and db tags in the same order (names do not matter).
+func verifSameShape(a, b reflect.Type) bool {
+	if a.Kind() != reflect.Struct || b.Kind() != reflect.Struct || a.NumField() != b.NumField() {
+		return false
+	}
+	for i := 0; i < a.NumField(); i++ {
+		fa, fb := a.Field(i), b.Field(i)
+		if fa.Type != fb.Type || fa.Tag.Get("db") != fb.Tag.Get("db") || fa.Anonymous != fb.Anonymous {
+			return false
+		}
+	}
+	return true
+}
+
 func verifOrmCase(c verifCase) any {
 	et := verifElemType(c.Shape.E)
+	if c.Decl != "" {
+		// a DECLARED destination type (see verifDecl): it must have the shape the case describes
+		dt, ok := verifDecl(c.Decl)
+		if !ok {
+			return map[string]any{"error": "unknown declared type " + c.Decl}
+		}
+		if !verifSameShape(dt, et) {
+			return map[string]any{"error": "declared type " + c.Decl + " does not have the case's shape"}
+		}
+		et = dt
+	}
 	var dest reflect.Value // pointer handed to the query method
 	if c.Shape.D == "slice" {
 		if c.Shape.Ptr {
@@ -498,6 +612,17 @@ func TestVerifDriver(t *testing.T) {
 			return verifTxCase(c)
 		case "orm":
 			return verifOrmCase(c)
+		case "pair":
+			// two queries one after the other in this process: first, then second
+			var p struct {
+				First  verifCase `json:"first"`
+				Second verifCase `json:"second"`
+			}
+			if err := json.Unmarshal(raw, &p); err != nil {
+				return map[string]any{"error": err.Error()}
+			}
+			first := verifOrmCase(p.First)
+			return map[string]any{"first": first, "second": verifOrmCase(p.Second)}
 		}
 		return map[string]any{"error": fmt.Sprintf("unknown case type %q", c.T)}
 	})
